@@ -16,8 +16,8 @@ from .prng import Rng, derive
 VERIF = build.VERIF
 DEFAULT_SEED = 20260921
 KNOWN_FILE = os.path.join(VERIF, "known_findings.json")
-REPLAY_DIR = os.path.join(VERIF, "replays")
-EVIDENCE_DIR = os.path.join(VERIF, "evidence")
+REPLAY_DIR = os.environ.get("P2SIM_REPLAYS", os.path.join(VERIF, "replays"))
+EVIDENCE_DIR = os.environ.get("P2SIM_EVIDENCE", os.path.join(VERIF, "evidence"))
 
 COMPONENTS = {
     "real": [
